@@ -75,7 +75,9 @@ def run(ctx):
         conds.append(xh.Cond(f"merge 2 notices first holder #{h0}", "C20.py", "_merge", {"m_n": 2, "fix_h0": h0}, timeout=tmo * 2, twin="_merge_reach"))
     for pf in (["spdx", "string-c"], ["symbol", "spdx-string-symbol"], ["spdx", "symbol", "string-c"]) if tier == "quick" else (["spdx", "string-c", "symbol", "spdx-string-symbol"],):
         conds.append(xh.Cond(f"merge 3 notices of one holder, prefixes {pf}", "C20.py", "_merge", {"m_n": 3, "m_same_holder": True, "m_prefixes": pf}, timeout=tmo * 3, twin="_merge_reach"))
+    conds.append(xh.Cond("get_year: 0-3 --year options in any order, --exclude-year", "C20.py", "_year", {}, timeout=tmo, twin="_year_reach"))
     ctx.functions_encoded = [
+        "reuse.cli.annotate.get_year",
         "reuse.copyright.make_copyright_line, merge_copyright_lines, _parse_copyright_year, _COPYRIGHT_PREFIXES",
         "reuse.extract._COPYRIGHT_PATTERNS incl. _END_PATTERN (real compiled patterns, interpreted by PYRE on symbolic subjects, by re itself on concrete ones)",
     ]
@@ -95,6 +97,8 @@ def run(ctx):
                 return None
             key = ex.get("known_key") or f"roundtrip:{ex['prefix']}:{ex['year']}:{ex['holder']!r}"
             return key, f"make_copyright_line({w['holder']!r}, {w['year']!r}, {w['prefix']!r}) = {ex['line']!r}: {why}", w
+        if c.func == "_year":
+            return f"get_year:{ex['years']}", f"get_year({ex['years']}, exclude={ex['exclude']}) = {ex['got']!r} does not span the years given", {"harness": "C20.py::_year", "explain": ex}
         return f"merge:{ex['why']}:{ex['notices']}", f"merge of {ex['notices']} gives {ex['merged']}: {ex['why']}", {"harness": "C20.py::_merge", "explain": ex}
 
     xh.settle(ctx, conds, confirm)
